@@ -30,6 +30,12 @@ public:
     template<typename TFun>
     void popScope(TFun callback);
 
+    // Forget the innermost scope limit but keep its elements: they become part of the enclosing scope
+    void mergeScope() {
+        assert(not limits.empty());
+        limits.pop_back();
+    }
+
     [[nodiscard]] bool empty() const { return elements.empty(); }
     [[nodiscard]] std::size_t size() const { return elements.size(); }
 
